@@ -165,7 +165,7 @@ def render(doc, fmt) -> bytes:
     k = doc.get("kind", "flow")
     if k == "flow":
         if fmt == "docx":
-            return wd.write_docx(doc)
+            return wd.write_docx(doc, images=[(i["target"], i.get("data"), i.get("part")) for i in doc.get("images") or []])
         if fmt == "odt":
             return odf.write_odt(doc)
         if fmt == "html":
@@ -272,6 +272,45 @@ def observe(job):
     except Exception as e:
         return {"exc": "Accessor:" + type(e).__name__, "msg": str(e)[:200]}
     return out
+
+
+def rich_doc(fmt, seed=0):
+    """One document per format with text, a table and two images (for C04 / C06 / C14 style checks)."""
+    from .writers.images import make
+    img1, img2 = make("png", 5 + seed % 3, 4, seed), make("jpeg", 9, 6 + seed % 2, seed)
+    blocks = [["h", 1, [["r", 1]]], ["p", [["r", 2], ["tab"], ["r", 3]]],
+              ["tbl", [[[["p", [["r", 4]]]], [["p", [["r", 5]]]]], [[["p", [["r", 6]]]], [["p", [["r", 7]]]]]]],
+              ["h", 2, [["r", 8]]], ["p", [["r", 9]]]]
+    props = {"title": "Rich T", "author": "Au Thor", "subject": "Subj", "keywords": "k1 k2", "description": "Descr"}
+    if fmt in ("docx", "odt", "html", "mhtml", "epub", "rtf"):
+        d = flow_doc(blocks, props=props)
+        if fmt == "docx":
+            d["images"] = [{"target": "media/image1.png", "part": "word/media/image1.png", "data": img1},
+                           {"target": "media/image2.jpeg", "part": "word/media/image2.jpeg", "data": img2}]
+        if fmt == "odt":
+            d["images"] = [{"target": "Pictures/a.png", "part": "Pictures/a.png", "data": img1},
+                           {"target": "Pictures/b.jpeg", "part": "Pictures/b.jpeg", "data": img2}]
+        return d
+    if fmt in ("pptx", "odp", "odg"):
+        pre = "../media/" if fmt == "pptx" else "Pictures/"
+        part = "ppt/media/" if fmt == "pptx" else "Pictures/"
+        return {"kind": "deck", "props": props, "slides": [
+            {"shapes": [["title", [["r", 1]]], ["body", [[["r", 2]], [["r", 3]]]],
+                        ["tbl", [[[[["r", 4]]], [[["r", 5]]]], [[[["r", 6]]], [[["r", 7]]]]]]],
+             "notes": [["r", 8]] if fmt != "odg" else [],
+             "images": [{"target": pre + "i1.png", "part": part + "i1.png", "data": img1}]},
+            {"shapes": [["text", [[["r", 9]]]]], "notes": [],
+             "images": [{"target": pre + "i2.jpeg", "part": part + "i2.jpeg", "data": img2}]}]}
+    if fmt in ("xlsx", "ods"):
+        pre = "../media/" if fmt == "xlsx" else "Pictures/"
+        part = "xl/media/" if fmt == "xlsx" else "Pictures/"
+        return {"kind": "book", "props": props, "sheets": [
+            {"name": word(1), "name_id": 1, "rows": [[["s", 2], ["s", 3]], [["s", 4], ["s", 5]]],
+             "images": [{"target": pre + "i1.png", "part": part + "i1.png", "data": img1}]},
+            {"name": word(6), "name_id": 6, "rows": [[["s", 7]]], "images": []}]}
+    if fmt in ("pdf", "txt", "md", "csv", "tsv", "json"):
+        return {"kind": "pages", "props": props, "pages": [[[1, 2], [3]], [[4]]]}
+    raise ValueError(fmt)
 
 
 def _run_job(job):
